@@ -9,7 +9,13 @@
                                     body run n times in its own loop
   random_alias_program(rng)      -> (name, src)    random composition of aliasing operations over a small pool
 
-Checkpoint convention: a line "CP <loop> <i>" is printed after iterations i+1 in CHECKPOINTS(n).
+  ALIAS (= first batch + ALIAS2 + ALIAS3)  aliasing templates; LOOP_BODIES (+2..6) loop bodies; KNOWN_CAUSE maps the loop bodies that
+  exercise a recorded defect to its root-cause key (used by checks/c12.py to attribute their verdicts to the known finding).
+
+Checkpoint convention: a line "CP <loop> <n>" is printed after n iterations, n in checkpoints(N) = {4, 10, 100, 1000, 5000, ...} <= N;
+loop bodies are called with i % 37 so that every allocation shape occurs before the checkpoint at 100.
+Wa limits respected (gen/findings.py): no `name []T` fields/parameters (named slice/array types), pointer receivers only, map
+deletes only of extreme or absent keys in the C11 templates, no nil maps, no nested closures capturing outer literals' locals.
 """
 import re
 
